@@ -1478,6 +1478,41 @@ func (c *Ctx) interval1(t *Term) ival {
 			}
 			return ival{lo, hi, true}
 		}
+	case OpMul:
+		a, b := c.interval(t.Args[0]), c.interval(t.Args[1])
+		if a.ok && b.ok {
+			const lim = int64(1) << 30
+			if a.lo > -lim && a.hi < lim && b.lo > -lim && b.hi < lim {
+				ps := []int64{a.lo * b.lo, a.lo * b.hi, a.hi * b.lo, a.hi * b.hi}
+				lo, hi := ps[0], ps[0]
+				for _, p := range ps[1:] {
+					if p < lo {
+						lo = p
+					}
+					if p > hi {
+						hi = p
+					}
+				}
+				return fits(lo, hi)
+			}
+		}
+	case OpSDiv:
+		b := c.interval(t.Args[1])
+		a := c.interval(t.Args[0])
+		if a.ok && b.ok && b.lo == b.hi && b.lo > 0 {
+			return ival{a.lo / b.lo, a.hi / b.lo, true}
+		}
+	case OpUDiv:
+		b := c.interval(t.Args[1])
+		a := c.interval(t.Args[0])
+		if a.ok && b.ok && b.lo == b.hi && b.lo > 0 && a.lo >= 0 {
+			return ival{a.lo / b.lo, a.hi / b.lo, true}
+		}
+	case OpNeg:
+		a := c.interval(t.Args[0])
+		if a.ok {
+			return fits(-a.hi, -a.lo)
+		}
 	case OpSRem:
 		b := c.interval(t.Args[1])
 		if b.ok && b.lo == b.hi && b.lo > 0 {
